@@ -70,14 +70,16 @@ def render(batch, fmt, lang):
         dlang.set_global_language_to('en')
 
 
-def make_batch(rng, lang, n_sent=None, licensed_only=False, awkward=0.2, with_failed=0.0):
+def make_batch(rng, lang, n_sent=None, licensed_only=False, awkward=0.2, with_failed=0.0, bare=0.0, unispace=0.0):
     cats = gen_cat.tree_cats(lang)
     out = []
     for _ in range(n_sent or rng.randint(1, 3)):
         if rng.random() < with_failed:
             out.append([ScoredTree(T.placeholder(), -float('inf'))])
             continue
-        kw = dict(awkward=awkward, attrs=0.6)
+        # attrs=None: tokens with all, some or none of lemma / pos / entity / chunk (readers and the failure
+        # placeholder produce bare tokens); a fixed 0.6 gives fully annotated tokens
+        kw = dict(awkward=awkward, attrs=(None if rng.random() < bare else 0.6), unispace=unispace)
         if licensed_only or rng.random() < 0.6:
             t = T.licensed_tree(rng, lang, rng.randint(0, 4), kw)
         else:
